@@ -12,5 +12,6 @@ INVARIANT NeedMoreIsIncomplete
 INVARIANT CompletionEqualsOneShot
 INVARIANT NoBufferingWhenComplete
 INVARIANT FreshAfterResetOrCompletion
+INVARIANT RefinesDefragLen
 INVARIANT EmitTransitions
 CHECK_DEADLOCK FALSE
